@@ -766,7 +766,6 @@ class AdapterLookupBase:
         super().__init__()
 
     def changed(self, ignored=None):
-        super().changed(None)
         # Detach the table before walking it: a lookup running in another
         # thread may call this method, or subscribe to more specifications,
         # at the same time.  Such a lookup may even have fetched the table
@@ -782,6 +781,12 @@ class AdapterLookupBase:
                     # thread's subscription or unsubscription won a race.
                     # We are dropping every subscription anyway.
                     pass
+        # Clear the caches last.  A lookup running in another thread after
+        # the caches were cleared, but before the table was detached, would
+        # have found its specifications in the table and left a cache
+        # entry behind that no later change of those specifications could
+        # invalidate.
+        super().changed(None)
 
     # Extendors
     # ---------
@@ -834,7 +839,11 @@ class AdapterLookupBase:
         _refs = self._required
         for r in required:
             ref = r.weakref()
-            if ref not in _refs:
+            # The table can claim a subscription that is gone: the counts
+            # kept by the specifications are not updated atomically, and
+            # ``changed`` running in another thread may have removed ours
+            # while we made it.
+            if ref not in _refs or self not in r.dependents:
                 r.subscribe(self)
                 _refs[ref] = 1
 
